@@ -6,6 +6,8 @@ import ClusterVerif.Lemmas.C08Total
 import ClusterVerif.Gen.C08
 import ClusterVerif.Gen.C08Pb
 import ClusterVerif.Lemmas.C08Prod
+import ClusterVerif.Lemmas.C08Add
+import ClusterVerif.Gen.C08Add
 
 /-!
 # C08 — records survive every encoding boundary; decoders never crash
@@ -406,5 +408,95 @@ theorem producers_reference_defined : (sites.all referenceOK) = true := CV.C08.P
 
 open CV.C08.Prod CV.C08.Gen.Prod in
 theorem producers_recognised : noUnrecognised sites unrecognisedAllowed = true := CV.C08.Prod.producers_recognised
+
+
+/-! ## Round 8: the query form of the add parameters (api/add.go) -/
+section AddParams
+open CV.C08.Add
+
+/-- today's api/add.go has the parameter tables the model `Model/C08Add.lean` transcribes: the steps of
+    `AddParamsFromQuery` and of `ToQueryString` in source order (kind, key, field, accepted values), the defaults of the
+    non-pin-option fields, the conjuncts of `Equals`, and the bodies of `parseBoolParam` / `parseIntParam` -/
+theorem add_table_matches :
+    Gen.Add.reads = expectedReads ∧ Gen.Add.writes = expectedWrites ∧
+    expectedDefaults.all (fun d => Gen.Add.defaults.contains d) = true ∧ Gen.Add.equalsFields = expectedEquals ∧
+    Gen.Add.helpers = [("parseBoolParam", "ok"), ("parseIntParam", "ok")] := by decide
+
+/-- over the GENERATED table: every statement of both functions is recognised (no `unknown` step) -/
+theorem add_steps_recognised : allRecognised Gen.Add.reads Gen.Add.writes = true := by decide
+
+/-- over the GENERATED table: every parameter written is read under the same key, into the same field, with a
+    matching parse kind, and the other way round; no key or field twice on either side -/
+theorem add_writes_reads_agree : writesReadsAgree Gen.Add.reads Gen.Add.writes = true := by decide
+
+/-- over the GENERATED table: every declared field of `AddParams` / `IPFSAddParams` is written with the kind of its Go
+    type, read, and has a default — a new field that one side forgets fails here -/
+theorem add_fields_covered : fieldsCovered Gen.Add.fields Gen.Add.reads Gen.Add.writes Gen.Add.defaults = true := by decide
+
+/-- over the GENERATED table: hash and version are read before the CIDv0 rule, which precedes the raw-leaves default,
+    which precedes the explicit raw-leaves parameter -/
+theorem add_rule_order : ruleOrderOk Gen.Add.reads = true := by decide
+
+/-- over the GENERATED table: `AddParams.Equals` compares the pin options and every field except `Progress` -/
+theorem add_equals_covers : equalsCovers Gen.Add.fields Gen.Add.equalsFields = true := by decide
+
+/-- `strconv.ParseBool (fmt.Sprintf "%t" b) = b` -/
+theorem add_bool_text_roundtrip (b : Bool) : parseBool (fmtBool b) = some b := parseBool_fmtBool b
+
+/-- `strconv.Atoi (fmt.Sprintf "%d" i) = i` for every 64-bit `i` (and the text is not the empty "absent" value) —
+    all integers, through core's `Int.repr` / `String.toInt?` lemmas -/
+theorem add_int_text_roundtrip (i : Int) (h : inInt64 i = true) : showInt i ≠ "" ∧ atoi (showInt i) = some i :=
+  atoi_showInt i h
+
+/-- the non-pin-option parameters survive `ToQueryString → AddParamsFromQuery`, for ALL well-formed values -/
+theorem add_extras_roundtrip (x : AddX) (hwf : wfX x = true) : fromParams (toParams x) = some x :=
+  fromParams_toParams x hwf
+
+example : wfX { defaultX with cidVersion := 1, hashFun := "blake2b-256", rawLeaves := false, layout := "trickle", noCopy := true } = true := by decide
+
+/-- whole `AddParams`: with pin options in the domain of `query_roundtrip`, the round trip is the pin options' lossy
+    projection with `PinUpdate` cleared, everything else unchanged -/
+theorem add_params_roundtrip (p : AddParams) (hx : wfX p.x = true)
+    (ho : p.opts.origins.all (·.p2p) = true)
+    (hu : uaValueEmpty p.opts.userAllocs = true ∨ p.opts.userAllocs.all validEntry = true) :
+    addRoundtrip p = .ok { opts := { lossyQuery p.opts with pinUpdate := none }, x := p.x } := by
+  unfold addRoundtrip
+  rw [query_roundtrip p.opts ho (by simpa using hu), fromParams_toParams p.x hx]
+
+/-- the full statement (no well-formedness of the add parameters) is false -/
+def add_extras_roundtrip_full : Prop := ∀ x : AddX, fromParams (toParams x) = some x
+
+/-- …an empty chunker comes back as the default chunker -/
+theorem add_extras_roundtrip_full_fails : ¬ add_extras_roundtrip_full := by
+  intro h
+  have := h { defaultX with chunker := "" }
+  revert this
+  rw [show fromParams (toParams { defaultX with chunker := "" }) = some defaultX from by
+        have := fromParams_toParams defaultX (by decide)
+        exact this ▸ rfl]
+  decide
+
+/-- the step order matters: parsing `raw-leaves` before the version-dependent default loses an explicit
+    `raw-leaves=false` of a CIDv1 add (the alternative a reordering edit would implement) -/
+theorem add_raw_leaves_order_matters :
+    ∃ x, wfX x = true ∧ fromParamsRawFirst (toParams x) ≠ some x := by
+  refine ⟨{ defaultX with cidVersion := 1, rawLeaves := false }, by decide, ?_⟩
+  unfold fromParamsRawFirst
+  rw [fromParams_toParams _ (by decide)]
+  decide
+
+/-- defaults of an empty query: `DefaultAddParams` except that `Format` becomes "" (it is assigned unconditionally) -/
+theorem add_defaults : fromParams [] = some { defaultX with format := "" } := by decide
+
+/-- a hash function other than sha2-256 without a version moves to CIDv1 with raw leaves; with an explicit
+    version 0 it is refused (6355d34) -/
+theorem add_hash_cid_rule (h : String) (hne : h ≠ "") (hs : isSha256 h = false) :
+    fromParams [("hash", h)] = some { defaultX with format := "", hashFun := h, cidVersion := 1, rawLeaves := true } := by
+  have hne' : (h != "") = true := by simpa using hne
+  simp [fromParams, getP, boolParam, intParam, hne', hs, defaultX]
+
+example : isSha256 "blake2b-256" = false := by decide
+
+end AddParams
 
 end CV.C08.Props
